@@ -10,6 +10,9 @@ PROTO = {"C04", "C05", "C06", "C07", "C08", "C09", "C10"}
 WIRE = {"C01", "C02", "C03"}
 DECODE = {"C11", "C12", "C13"}
 INVERTER = {"C14", "C15", "C16", "C18"}
+SETTINGS = {"C17"}
+MODES = {"C19"}
+SHUFFLE = {"C20"}
 
 
 def check(prop: str, tier: str, seed: int) -> int:
@@ -25,6 +28,15 @@ def check(prop: str, tier: str, seed: int) -> int:
     if prop in INVERTER:
         from . import checks_inverter
         return checks_inverter.check(prop, tier, seed)
+    if prop in SETTINGS:
+        from . import checks_settings
+        return checks_settings.check(prop, tier, seed)
+    if prop in MODES:
+        from . import checks_modes
+        return checks_modes.check(prop, tier, seed)
+    if prop in SHUFFLE:
+        from . import checks_shuffle
+        return checks_shuffle.check(prop, tier, seed)
     raise SystemExit(f"no check registered for {prop}")
 
 
